@@ -89,7 +89,9 @@ Proof.
     destruct (IH (do_step fl ft r s) (Hbud Hb E1) Hs1 E2' Hf') as (I1 & I2).
     unfold run_steps in I1. rewrite I1. clear I1.
     unfold do_step in *. destruct s as [c|p]; cbn [rs_d rs_errs app exec_all all_ok] in *.
-    + destruct (mutating c && mem_nat (rs_mut r) (ft_dest ft)) eqn:Einj; cbn [fst snd rs_d rs_errs] in *.
+    + destruct (mutating c && match ft_stop ft with Some n => Nat.leb n (rs_mut r) | None => false end) eqn:Estop; cbn [fst snd rs_d rs_errs] in *.
+      { exfalso. apply (f_equal (@length _)) in E1. rewrite app_length in E1. cbn in E1. lia. }
+      destruct (mutating c && negb (is_chunk c) && mem_nat (rs_mut r) (ft_dest ft)) eqn:Einj; cbn [fst snd rs_d rs_errs] in *.
       * exfalso. apply (f_equal (@length _)) in E1. rewrite app_length in E1. cbn in E1. lia.
       * destruct (doer_exec fl (rs_d r) c) as [d' [e|]] eqn:Ed; cbn [fst snd rs_d rs_errs] in *.
         -- exfalso. apply (f_equal (@length _)) in E1. rewrite app_length in E1. cbn in E1. lia.
